@@ -38,6 +38,9 @@ CHECKS = {
  'C11': ('libx', 'bounded-exhaustive: the sign matrix of the real Compare over the whole universe of each kind (and of Rules.Sort on mixed-kind pairs) decides all ordered pairs and triples; all permutations of all k-subsets (k <= 5) of a 12-rule universe go through the real Rules.Sort',
          'Antisymmetry, transitivity and "equal only if identical" are checked on every pair and triple of the universe (1.9e12 triples for file rules in the thorough tier), canonical sorting on every permutation of every small sub-list.',
          'universe in engine/gox/universe; comments exempt', 'DESIGN.md §4 C11'),
+ 'C09': ('libx', 'bounded-exhaustive round trips on the real printer and parser: every rule of every kind universe x comment variants, every short list after Merge+Sort+Format, every sequence of <= 5 preamble items x 27 headers, xattrs rendered under every owned map-iteration start',
+         'Each case is printed by the real templates and parsed back by the real parser; fields, re-printed text and (for files) preamble order and header fields are compared. 640 thousand round trips in the thorough tier.',
+         'self-consistency oracle (printer vs parser of the library); universe in engine/gox/universe', 'DESIGN.md §4 C09'),
 }
 PENDING = {}
 def main():
